@@ -41,7 +41,7 @@ def tolk(k, x):
 
 
 class Prop(BaseProp):
-    coq_targets = ['ND/Proofs/C14_proofs.vo']
+    coq_targets = ['ND/Proofs/C14_proofs.vo', 'ND/Proofs/C14_prog.vo']
     extra_model_targets = ['gen/Gen_Bessel.vo', 'ND/Hand/Bessel.vo']
     extra_imports = 'From ND Require Import Bessel.\nFrom NDgen Require Import Gen_Bessel.'
     n_quick, n_thorough = 420, 9000
